@@ -28,6 +28,9 @@ Section Driver.
 
   (* one decision of the optimizer *)
   Inductive choice :=
+  | CBegin
+    (* LM::new found nothing to stop for: the iteration starts (only meaningful as the first
+       choice, and only needed when no trial follows) *)
   | CStop (r : reason)
     (* stop without touching the problem: in LM::new (NoParameters, NoResiduals, Numerical,
        ResidualsZero), after a Jacobian (update_diag: Orthogonal, Numerical; WrongDimensions), or
@@ -36,18 +39,32 @@ Section Driver.
     (* trust_region_iteration: set_params(a); residuals(); the step is accepted iff [good];
        if [stop = Some r] the iteration ends with r after reset_params_if(!good) *)
 
+  (* ghost instrumentation: [dec c' c] decides "the objective of c' is strictly below that of c";
+     it only feeds the ghost flag [decreased] and never influences control flow *)
+  Variable dec : Cache -> Cache -> bool.
+
   Record report := {
     termination : reason;
     evaluations : nat;              (* number_of_evaluations *)
     objective_at : option V;        (* the parameters whose residuals the reported objective
                                        belongs to; None: objective is NaN (no residuals at start) *)
+    (* ghost fields *)
+    objective_cache : option Cache; (* the cached state the reported objective was computed from *)
+    updates : nat;                  (* set_params calls made by the optimizer *)
+    decreased : bool;               (* every accepted step strictly decreased the objective *)
   }.
 
   Inductive phase := NeedJacobian | InTrials.
 
-  (* fuel = length of the script; running out of script is reported as [None] *)
-  Fixpoint drive (script : list choice) (ph : phase) (p : problem) (x : V) (evals : nat)
-    : option (problem * report) :=
+  Definition stop_reason (ph : phase) (r : reason) : reason :=
+    (* between two trials of one batch lm.rs can only stop for numerical reasons *)
+    match ph with NeedJacobian => r | InTrials => Numerical end.
+
+  (* fuel = length of the script; running out of script is reported as [None].
+     x / cx: the last accepted parameters and the cache they produced; ups: set_params calls so
+     far; ok: ghost flag *)
+  Fixpoint drive (script : list choice) (ph : phase) (p : problem) (x : V) (cx : Cache)
+           (evals ups : nat) (ok : bool) : option (problem * report) :=
     (* the outer loop requests the Jacobian before the next batch of trials *)
     let '(p0, jac_ok) :=
       match ph with
@@ -55,27 +72,31 @@ Section Driver.
                         (p1, match j with Some _ => true | None => false end)
       | InTrials => (p, true)
       end in
-    if negb jac_ok
-    then Some (p0, {| termination := User; evaluations := evals; objective_at := Some x |})
+    let rep r ev u := {| termination := r; evaluations := ev; objective_at := Some x;
+                         objective_cache := Some cx; updates := u; decreased := ok |} in
+    if negb jac_ok then Some (p0, rep User evals ups)
     else
       match script with
       | [] => None
-      | CStop r :: _ =>
-          Some (p0, {| termination := r; evaluations := evals; objective_at := Some x |})
+      | CBegin :: _ => None
+      | CStop r :: _ => Some (p0, rep (stop_reason ph r) evals ups)
       | CTrial a good stop :: rest =>
           let p1 := set_params um solve p0 a in
           let evals1 := S evals in
           match p_cached p1 with
-          | None =>
-              Some (p1, {| termination := User; evaluations := evals1; objective_at := Some x |})
-          | Some _ =>
+          | None => Some (p1, rep User evals1 (S ups))
+          | Some c1 =>
               let x1 := if good then a else x in
+              let cx1 := if good then c1 else cx in
+              let ok1 := if good then ok && dec c1 cx else ok in
               match stop with
               | Some r =>
                   let p2 := if good then p1 else set_params um solve p1 x in
-                  Some (p2, {| termination := r; evaluations := evals1; objective_at := Some x1 |})
+                  Some (p2, {| termination := r; evaluations := evals1; objective_at := Some x1;
+                               objective_cache := Some cx1;
+                               updates := if good then S ups else S (S ups); decreased := ok1 |})
               | None =>
-                  drive rest (if good then NeedJacobian else InTrials) p1 x1 evals1
+                  drive rest (if good then NeedJacobian else InTrials) p1 x1 cx1 evals1 (S ups) ok1
               end
           end
       end.
@@ -84,12 +105,15 @@ Section Driver.
   Definition minimize (script : list choice) (p : problem) : option (problem * report) :=
     let x := params um p in
     match p_cached p with
-    | None => Some (p, {| termination := User; evaluations := 1; objective_at := None |})
-    | Some _ =>
+    | None => Some (p, {| termination := User; evaluations := 1; objective_at := None;
+                          objective_cache := None; updates := 0; decreased := true |})
+    | Some c =>
         match script with
         | CStop r :: _ =>
-            Some (p, {| termination := r; evaluations := 1; objective_at := Some x |})
-        | _ => drive script NeedJacobian p x 1
+            Some (p, {| termination := r; evaluations := 1; objective_at := Some x;
+                        objective_cache := Some c; updates := 0; decreased := true |})
+        | CBegin :: rest => drive rest NeedJacobian p x c 1 0 true
+        | _ => drive script NeedJacobian p x c 1 0 true
         end
     end.
 
@@ -128,5 +152,6 @@ Section Driver.
     end.
 End Driver.
 
+Arguments CBegin {V}.
 Arguments CStop {V} r.
 Arguments CTrial {V} a good stop.
